@@ -296,4 +296,67 @@ theorem parseLit_and_parse_agree_on_escape (isPrint : Nat → Bool) (orc : Parse
   obtain ⟨c, h1, h2, _⟩ := escape_parses_as_literal_full isPrint orc hW hP (fullOpts o m n sl r) rfl mco s
   exact ⟨c, _, h1, rfl, h2⟩
 
+
+/-! #### non-vacuity and sensitivity on the full model
+
+The kernel evaluates `Parser.parse` on these small inputs (`decide +kernel`: the proof term is
+`of_decide_eq_true (Eq.refl true)`, checked by the kernel alone; the elaborator's own evaluator is too slow on the
+monadic parser). -/
+
+/-- an oracle record for the examples: ASCII word characters, no case mapping (`hW` holds: see above) -/
+def orcA : Parser.Oracles where
+  isWord := asciiWord
+  ecmaStart := fun _ => false
+  ecmaPart := fun _ => false
+  toLower := fun r => r
+  isLower := fun c => decide (97 ≤ c ∧ c ≤ 122)
+  isUpper := fun c => decide (65 ≤ c ∧ c ≤ 90)
+  orbit := fun _ => []
+  participates := fun c => decide (65 ≤ c ∧ c ≤ 90 ∨ 97 ≤ c ∧ c ≤ 122)
+  cat := fun _ _ => false
+  catName := fun _ => none
+
+def envA (opts : Parser.Opts) (pat : List Nat) : Parser.Env := { pat := pat, opts := opts, mco := false, orc := orcA }
+
+/-- what the full parser model makes of a pattern, if it is a literal tree: the runes it spells and the node types
+    of the children of its concatenation (9 = One, 12 = Multi), both in pattern order -/
+def parsedSpelling (E : Parser.Env) : Option (List Nat × List Nat) :=
+  match Parser.parse E with
+  | .ok t =>
+    match t.root with
+    | .mk .capture _ _ _ _ 0 (-1) [.mk .alternate _ _ _ _ _ _ [c]] =>
+      let ks := if c.o.r then c.kids.reverse else c.kids
+      (Parser.kidsRunes ks).map fun w => (w, ks.map fun k => k.t.toNat)
+    | _ => none
+  | _ => none
+
+/-- `a.b` → `a\.b`: three One nodes -/
+example : parsedSpelling (envA {} (escape asciiPrint [97, 46, 98])) = some ([97, 46, 98], [9, 9, 9]) := by
+  decide +kernel
+
+/-- `1+1=2 # x` under IgnorePatternWhitespace → `1\+1=2\ \#\ x`: the blanks and the `#` survive -/
+example : parsedSpelling (envA { x := true } (escape asciiPrint [49, 43, 49, 61, 50, 32, 35, 32, 120])) =
+    some ([49, 43, 49, 61, 50, 32, 35, 32, 120], [9, 9, 12, 9, 9, 9, 9]) := by decide +kernel
+
+/-- `ab`, a tab, U+00E9, U+0378, a non-printable astral rune and `c` under ECMAScript + Unicode + RightToLeft +
+    IgnorePatternWhitespace → `ab\t\xe9͸` + raw U+E0001 + `c`: Multi, three One, Multi -/
+example : parsedSpelling (envA { e := true, u := true, r := true, x := true }
+      (escape asciiPrint [97, 98, 9, 0xE9, 0x378, 0xE0001, 99])) =
+    some ([97, 98, 9, 0xE9, 0x378, 0xE0001, 99], [12, 9, 9, 9, 12]) := by decide +kernel
+
+/-- the hypothesis `hi` is needed: under IgnoreCase the letter `a` becomes a Set node — not a literal tree -/
+example : parsedSpelling (envA { i := true } (escape asciiPrint [97])) = none := by decide +kernel
+
+/-- without escaping, IgnorePatternWhitespace drops the blank and the comment (the full model's reading of the
+    raw text `a b#c`), and `a.b` is not a literal tree -/
+example : parsedSpelling (envA { x := true } [97, 32, 98, 35, 99]) = some ([97, 98], [9, 9]) := by decide +kernel
+example : parsedSpelling (envA {} [97, 46, 98]) = none := by decide +kernel
+
+/-- **seeded mutation C19-astral-xbrace on the full model**: the mutant `escape` is still read as the literal under
+    the default options, but under ECMAScript the full parser spells `tx{e0001}` -/
+example : parsedSpelling (envA {} (escapeXBrace asciiPrint [116, 0xE0001])) = some ([116, 0xE0001], [9, 9]) := by
+  decide +kernel
+example : parsedSpelling (envA { e := true } (escapeXBrace asciiPrint [116, 0xE0001])) =
+    some ([116, 120, 123, 101, 48, 48, 48, 49, 125], [9, 9, 12]) := by decide +kernel
+
 end RegexVerif.Props.C19
